@@ -154,12 +154,20 @@ def _add_opmap(rng, case, oids, dense, oid_identity):
 
 def _gen_tree(rng, depth, oids, cplx, pleaf, qleaf_end, q_of):
     """[q, [[oid, coeff, child], ...]] ; depth = remaining sites; a leaf at remaining depth 0 needs charge qleaf_end"""
+    near = [rng.random() < 0.15]       # at most once per tree: two sibling edges with the same operator and coefficients that are
+                                      # different but close in the sense of numpy.isclose (200000 and 200001); products stay < 2^53
     def rec(rem, q):
         if rem == 0 or rng.random() < pleaf:
             return [q, []]
         ch = []
         for _ in range(rng.choice([1, 1, 2, 2, 3])):
             ch.append([rng.choice(oids), _coeff(rng, cplx), None])
+        if near[0] and len(ch) >= 2 and rng.random() < 0.5:
+            near[0] = False
+            big = rng.choice([200000, -300000])
+            ch[0][1] = [big, 0]
+            ch[1][0] = ch[0][0]
+            ch[1][1] = [big + 1, 0]
         for c in ch:
             sub_rem = rem - 1
             # decide the child's shape first, to pick a charge the graph accepts
